@@ -289,6 +289,25 @@ def check_decoder(ctx, key, spec):
             # absent exactly when the guard field says so: the none-alternative exists
             has_none = d.kind == "cases" and any(x.kind == "none" for _, x in d.cases)
             ctx.check(has_none, R4, f"{lab}:{fname}:absent-without-sensor", m, dnode, f"absent when {fs['optional']}", d.brief()[:160])
+            # ... and only then: with the guard field saying "present" (all other bits of the record 1) every code of the field
+            # is a value - no code is turned into "absent" on the decoder's own authority (the vendor defines no sentinel here)
+            if "na" not in fs and len(fs["bits"]) <= 8:
+                fb = list(fs["bits"])
+                res_by_raw = {}
+                for raw in range(1 << len(fb)):
+                    assign = {p: (raw >> i) & 1 for i, p in enumerate(fb)}
+
+                    def src3(name, k, assign=assign):
+                        return assign.get(abs_pos(name, k, smap), 1)
+
+                    try:
+                        res_by_raw[raw] = absval.concretize(v, src3, ctx.repo)[0]
+                    except absval.Undefined:
+                        res_by_raw = {}
+                        break
+                nones = sorted(r for r, k in res_by_raw.items() if k == "none")
+                if res_by_raw and len(nones) < len(res_by_raw):
+                    ctx.check(not nones, R4, f"{lab}:{fname}:every-code-is-a-value-when-present", m, dnode, f"with the guard set, each of the {len(res_by_raw)} codes of the field decodes to a value (absent only when {fs['optional']})", f"raw code(s) {[hex(r) for r in nones[:4]]} decode to absent although the record says the field is present")
     # fields the decoder produces beyond the spec'ed ones are fine (e.g. ac_name); nothing to check
 
 
@@ -493,8 +512,20 @@ def _conds(ex):
     return [OF.cfmt(c) for c in ex.conds]
 
 
+def console_version_refuses_nothing(ctx, R="C05.R6"):
+    """The version strings are free text (the documents show examples, no grammar): the decoder splits them and judges nothing.
+    A decoder that refuses "1.3.0-rc1" turns every heartbeat answer of such a console into a connection reset."""
+    for gen in ("at4", "at5"):
+        m = ctx.repo.module(f"pyairtouch.{gen}.comms.x1FFF30_console_ver")
+        ci = m.get_class("ConsoleVersionDecoder")
+        ctx.require(ci is not None and "decode" in ci.methods, f"{m.relpath}: ConsoleVersionDecoder.decode vanished")
+        rs = [x for x in walk_no_nested(ci.methods["decode"]) if isinstance(x, ast.Raise)]
+        ctx.check(not rs, R, f"{gen}:ConsoleVersionDecoder:refuses-nothing", m, (rs[0] if rs else ci.methods["decode"]), "decode() raises nothing of its own: any version text is passed on", f"`{norm_text(rs[0])[:70]}`" if rs else "")
+
+
 def r6(ctx):
     R = "C05.R6"
+    console_version_refuses_nothing(ctx, R)
     for gen, sep in (("at4", "|"), ("at5", ",")):
         m = ctx.repo.module(f"pyairtouch.{gen}.comms.x1FFF30_console_ver")
         v = ctx.repo.try_fold(m, m.get_const_expr("VERSION_SEP"))
